@@ -7,6 +7,13 @@ Import ListNotations.
 Local Open Scope string_scope.
 Local Open Scope N_scope.
 
+Arguments rd_str : simpl never.
+Arguments sat : simpl never.
+Arguments parse_enum : simpl never.
+Arguments pjoin : simpl never.
+Arguments name_of : simpl never.
+Arguments lower : simpl never.
+
 (* ------------------------------------------------------------------ *)
 (* association lists *)
 
@@ -186,7 +193,8 @@ Proof.
   - (* PStr / RStr *)
     dv v; try discriminate. rewrite (Hget (r_key r)) by (simpl; rewrite String.eqb_refl; reflexivity).
     simpl. rewrite String.eqb_refl.
-    rewrite rd_str_ok; [reflexivity| |exact Hd]. destruct join; reflexivity.
+    unfold str_ok in Hd. apply andb_prop in Hd as [Hd _].
+    destruct join; [rewrite (pjoin_abs _ _ Hd)|]; reflexivity.
   - (* POptStr / ROptStr *)
     apply andb_prop in Hok as [Hjx _].
     dv v; try discriminate; rewrite (Hget (r_key r)) by (simpl; rewrite String.eqb_refl; reflexivity); simpl.
@@ -203,7 +211,7 @@ Proof.
   - (* PPairsNE / RPairs *)
     dv v; try discriminate; rewrite (Hget (r_key r)) by (simpl; rewrite String.eqb_refl; reflexivity); simpl.
     + reflexivity.
-    + rewrite String.eqb_refl. simpl in Hd. rewrite Hd. reflexivity.
+    + rewrite String.eqb_refl. rewrite Hd. reflexivity.
   - (* PEnum / REnum *)
     apply andb_prop in Hok as [_ Hall].
     dv v; try discriminate. rewrite (Hget (r_key r)) by (simpl; rewrite String.eqb_refl; reflexivity).
@@ -223,16 +231,17 @@ Proof.
     assert (Hfk : String.eqb kfac (r_key r) = false) by (rewrite String.eqb_sym; exact Hkf).
     assert (Hlk : String.eqb kfile (r_key r) = false) by (rewrite String.eqb_sym; exact Hkl).
     assert (Hlf : String.eqb kfile kfac = false) by (rewrite String.eqb_sym; exact Hfl).
-    assert (G1 : get (r_key r) = lookup (r_key r) (print_row r v)).
-    { apply Hget. simpl. rewrite String.eqb_refl. reflexivity. }
-    assert (G2 : get kfac = lookup kfac (print_row r v)).
-    { apply Hget. simpl. rewrite String.eqb_refl, orb_true_r. reflexivity. }
-    assert (G3 : get kfile = lookup kfile (print_row r v)).
-    { apply Hget. simpl. rewrite String.eqb_refl, !orb_true_r. reflexivity. }
-    unfold print_row in G1, G2, G3. rewrite HP in G1, G2, G3.
+    assert (M1 : smem (r_key r) [r_key r; kfac; kfile] = true)
+      by (simpl; rewrite String.eqb_refl; reflexivity).
+    assert (M2 : smem kfac [r_key r; kfac; kfile] = true)
+      by (simpl; rewrite String.eqb_refl, orb_true_r; reflexivity).
+    assert (M3 : smem kfile [r_key r; kfac; kfile] = true)
+      by (simpl; rewrite String.eqb_refl, !orb_true_r; reflexivity).
+    pose proof (Hget _ M1) as G1. pose proof (Hget _ M2) as G2. pose proof (Hget _ M3) as G3.
+    clear Hget M1 M2 M3.
     dv v; try discriminate; simpl in G1, G2, G3;
-      rewrite ?String.eqb_refl, ?Hfk, ?Hlk, ?Hlf, ?Hkf, ?Hkl, ?Hfl in G1, G2, G3;
-      rewrite G1, G2, G3; simpl in Hd |- *.
+      rewrite G1, G2, G3;
+      rewrite ?String.eqb_refl, ?Hfk, ?Hlk, ?Hlf, ?Hkf, ?Hkl, ?Hfl; simpl in Hd |- *.
     + (* LDefault *)
       pose proof (enum_ok_parse _ _ _ _ (forallb_smem _ _ _ Hall Hd)) as Hp.
       unfold parse_enum in Hp. rewrite Hp. reflexivity.
@@ -259,8 +268,8 @@ Proof.
   match goal with H : String.eqb kfac kfac0 = true |- _ => apply String.eqb_eq in H; subst kfac0 end.
   match goal with H : String.eqb kfile kfile0 = true |- _ => apply String.eqb_eq in H; subst kfile0 end.
   simpl in Hm. rewrite orb_false_r in Hm.
-  apply orb_false_elim in Hm as [H1 Hm]. apply orb_false_elim in Hm as [H2 H3].
-  dv v; simpl; rewrite ?H1, ?H2, ?H3; reflexivity.
+  apply orb_false_elim in Hm as [K1 Hm]. apply orb_false_elim in Hm as [K2 K3].
+  dv v; simpl; rewrite ?K1, ?K2, ?K3; reflexivity.
 Qed.
 
 (* ------------------------------------------------------------------ *)
@@ -321,7 +330,7 @@ Lemma row_okb_strict r : row_okb true r = true -> row_okb false r = true.
 Proof.
   unfold row_okb. destruct (r_printer r); destruct (r_reader r); try discriminate; auto;
     destruct (r_cli r); auto; intros H; apply andb_prop in H as [H1 H2]; rewrite H1; simpl;
-    apply N.leb_le in H2; apply N.leb_le; pose proof (eff_strict_le max0); lia.
+    unfold eff in *; apply N.leb_le in H2; apply N.leb_le; pose proof (N.le_min_l max0 i64max); lia.
 Qed.
 
 Lemma cli_small_strict e r v : row_okb true r = true -> cli_dom e r v = true -> val_small v = true.
@@ -375,7 +384,7 @@ Lemma val_eqb_refl v : val_eqb v v = true.
 Proof.
   dv v; simpl; rewrite ?String.eqb_refl, ?N.eqb_refl, ?sl_eqb_refl, ?pl_eqb_refl; try reflexivity.
   - destruct b; reflexivity.
-  - rewrite String.eqb_refl. apply pl_eqb_refl.
+  - destruct p as [a b]. simpl. rewrite ?String.eqb_refl, ?pl_eqb_refl. reflexivity.
 Qed.
 Lemma vl_eqb_refl l : vl_eqb l l = true.
 Proof. induction l; simpl; [reflexivity|]. rewrite val_eqb_refl. exact IHl. Qed.
